@@ -23,7 +23,7 @@
 EXTENDS Naturals, Sequences, FiniteSets, TLC
 
 CONSTANTS
-    Table,      \* "cert" | "sshsig" | "verify" | "ident" | "cross" : which table this run enumerates
+    Table,      \* "cert" | "sshsig" | "verify" | "ident" | "cross" | "msgform" : which table this run enumerates
     Variant,    \* "code" = faithful; anything else = a seeded-wrong machine
     TwoLines,   \* sshsig: also enumerate two-line allowed-signers files
     Emit        \* TRUE: print one row per finished case
@@ -352,6 +352,47 @@ CrossCheck(s, k) ==
 NameSetLocal == Table = "cross" => XAccepted(c) = XNamesOf(c.key)
 
 -----------------------------------------------------------------------------
+(* Message-form table (SSHSIG): the FORM in which the message is handed to   *)
+(* the signer and to the verifier - bytes, a file name (str / PurePath), a   *)
+(* precomputed digest (is_hashed), or ssh-keygen -Y as the other party - is  *)
+(* a field of the row; the verdict must not depend on it: all forms of the   *)
+(* SAME message are interchangeable and no form validates another message    *)
+(* (the file padded with NULs to a chunk boundary, extended, truncated).     *)
+
+MsgSizes == {0, 1, 8191, 8192, 8193, 65535, 65536, 65537, 131073}
+MsgRels  == {"same", "pad8k", "pad64k", "extended", "truncated"}
+SForms   == {"bytes", "file", "hashed", "keygen"}
+VForms   == {"bytes", "file", "path", "hashed", "keygen"}
+MsgCases ==
+    {k \in [size : MsgSizes, hash : {"sha256", "sha512"}, sform : SForms, vform : VForms,
+            rel : MsgRels] :
+        /\ ~(k.sform = "keygen" /\ k.vform = "keygen")
+        /\ (k.rel = "truncated" => k.size > 0)}
+
+PadTo(n, ch) == IF n % ch = 0 THEN n ELSE (n \div ch + 1) * ch
+Mk(len, kind, stale) == [len |-> len, kind |-> kind, stale |-> stale]
+SignMsg(k) == Mk(k.size, "m", FALSE)
+VerMsg(k) ==
+    CASE k.rel = "same"      -> Mk(k.size, "m", FALSE)
+      [] k.rel = "pad8k"     -> IF PadTo(k.size, 8192) = k.size THEN Mk(k.size, "m", FALSE)
+                                ELSE Mk(PadTo(k.size, 8192), "mnul", FALSE)
+      [] k.rel = "pad64k"    -> IF PadTo(k.size, 65536) = k.size THEN Mk(k.size, "m", FALSE)
+                                ELSE Mk(PadTo(k.size, 65536), "mnul", FALSE)
+      [] k.rel = "extended"  -> Mk(k.size + 1, "mx", FALSE)
+      [] k.rel = "truncated" -> Mk(k.size - 1, "mt", FALSE)
+NulKind(kd) == CASE kd = "m" -> "mnul" [] kd = "mnul" -> "mnul" [] kd = "mx" -> "mxnul"
+                 [] OTHER -> "mtnul"
+\* what gets hashed for a message handed over in a given form
+Hashed(form, m) ==
+    IF Variant = "FileFormHashesBuffer" /\ form \in {"file", "path"} /\ m.len % 65536 # 0
+    THEN (IF m.len < 65536 THEN Mk(65536, NulKind(m.kind), FALSE)   \* one partial block + NULs
+          ELSE Mk(m.len, m.kind, TRUE))                             \* later block + stale bytes
+    ELSE m
+MsgRule(k) == VerMsg(k) = SignMsg(k)
+MsgStages == <<"digest">>
+MsgCheck(k) == Hashed(k.sform, SignMsg(k)) = Hashed(k.vform, VerMsg(k))
+
+-----------------------------------------------------------------------------
 (* Plain signatures                                                        *)
 
 Algs == {"rsa-sha2-256", "rsa-sha2-512", "ssh-rsa", "ecdsa256", "ecdsa384", "ecdsa521",
@@ -391,18 +432,21 @@ Cases == CASE Table = "cert"   -> CertCases
            [] Table = "verify" -> VerCases
            [] Table = "ident"  -> IdentCases
            [] Table = "cross"  -> CrossCases
+           [] Table = "msgform" -> MsgCases
 
 Stages == CASE Table = "cert"   -> CertStages
             [] Table = "sshsig" -> SigStages
             [] Table = "verify" -> VerStages
             [] Table = "ident"  -> IdentStages
             [] Table = "cross"  -> CrossStages
+            [] Table = "msgform" -> MsgStages
 
 Rule(k) == CASE Table = "cert"   -> CertRule(k)
              [] Table = "sshsig" -> SshsigRule(k)
              [] Table = "verify" -> VerifyRule(k)
              [] Table = "ident"  -> IdentRule(k)
              [] Table = "cross"  -> CrossRule(k)
+             [] Table = "msgform" -> MsgRule(k)
 
 Init == c \in Cases /\ pc = 1 /\ res = "pending" /\ stage = "none"
 
@@ -423,6 +467,8 @@ SigStep ==
                              ELSE IF IsCert(c) THEN Goto(3) ELSE Reject(s)
       [] s = "caentries"  -> IF CaEntryHit(c) THEN Goto(4) ELSE Reject(s)
       [] s = "certvalid"  -> IF c.signer = "cert_ok" THEN Accept ELSE Reject(s)
+
+MsgStep == IF MsgCheck(c) THEN Accept ELSE Reject("digest")
 
 CrossStep ==
     LET s == CrossStages[pc] IN
@@ -448,6 +494,7 @@ Next ==
          [] Table = "verify" -> VerStep
          [] Table = "ident"  -> IdentStep
          [] Table = "cross"  -> CrossStep
+         [] Table = "msgform" -> MsgStep
 
 Spec == Init /\ [][Next]_vars
 
